@@ -551,6 +551,13 @@ func mkContains(s, sub *Term) *Term { // s contains sub
 			return tTrue
 		}
 	}
+	if sub.Op == "cs" && len(sub.S) >= 1 && s.Op == "str.from_int" {
+		for i := 0; i < len(sub.S); i++ {
+			if sub.S[i] < '0' || sub.S[i] > '9' {
+				return tFalse
+			}
+		}
+	}
 	if sub.Op == "cs" && len(sub.S) == 1 && s.Op == "str.++" {
 		// a one-character needle cannot straddle parts
 		var alts []*Term
@@ -981,4 +988,90 @@ func collectVars(t *Term, m map[string]*Term) {
 			m[x.Name] = x
 		}
 	})
+}
+
+// mkOp rebuilds an application through the simplifying constructors.
+func mkOp(t *Term, args []*Term) *Term {
+	switch t.Op {
+	case "not":
+		return mkNot(args[0])
+	case "and":
+		return mkAnd(args...)
+	case "or":
+		return mkOr(args...)
+	case "ite":
+		return mkIte(args[0], args[1], args[2])
+	case "=":
+		return mkEq(args[0], args[1])
+	case "<", "<=", ">", ">=":
+		return mkCmp(t.Op, args[0], args[1])
+	case "+":
+		return mkAdd(args...)
+	case "-":
+		if len(args) == 1 {
+			return mkNeg(args[0])
+		}
+		return mkSub(args[0], args[1])
+	case "*":
+		return mkMul(args[0], args[1])
+	case "str.++":
+		return mkConcat(args...)
+	case "str.len":
+		return mkLen(args[0])
+	case "str.prefixof":
+		return mkPrefixOf(args[0], args[1])
+	case "str.suffixof":
+		return mkSuffixOf(args[0], args[1])
+	case "str.contains":
+		return mkContains(args[0], args[1])
+	case "str.at":
+		return mkAt(args[0], args[1])
+	case "str.to_code":
+		return mkToCode(args[0])
+	case "str.to_int":
+		return mkStrToInt(args[0])
+	case "str.from_int":
+		return mkStrFromInt(args[0])
+	}
+	n := rawApp(t.Op, t.Sort, args...)
+	if len(t.Args) == 0 || t.Op == "re.loop" {
+		return t
+	}
+	n.rng, n.lo, n.hi = t.rng, t.lo, t.hi
+	// keep custom keys of indexed operators
+	if t.Op != "" && t.key != "" && t.key[0] == '(' && len(t.key) > 2 && t.key[1] == '(' {
+		return t
+	}
+	return n
+}
+
+// substTerm replaces variables by the given terms and re-simplifies.
+func substTerm(t *Term, env map[string]*Term) *Term {
+	if len(env) == 0 {
+		return t
+	}
+	switch t.Op {
+	case "var":
+		if r, ok := env[t.Name]; ok {
+			return r
+		}
+		return t
+	case "cb", "ci", "cs", "cbig":
+		return t
+	}
+	if t.Sort == SRe {
+		return t
+	}
+	changed := false
+	args := make([]*Term, len(t.Args))
+	for i, a := range t.Args {
+		args[i] = substTerm(a, env)
+		if args[i] != a {
+			changed = true
+		}
+	}
+	if !changed {
+		return t
+	}
+	return mkOp(t, args)
 }
